@@ -3,8 +3,8 @@
    (Proofs/NlriDecoded.v), of the builder's family, with a path identifier exactly when the type parses one. *)
 From Coq Require Import List NArith Bool Lia ZArith.
 From RC Require Import Base.Res Base.Wire Model.Open Model.Negotiate Model.Nlri Gen.AttrRules Model.AsPath Model.Attr
-     Model.Update Gen.BuilderConsts Model.Builder
-     Proofs.WireProofs Proofs.NlriProofs Proofs.NlriDecoded Proofs.C06Proofs Proofs.C06Bytes Proofs.C07Msg.
+     Model.Update Model.RefEncUpdate Gen.BuilderConsts Model.Builder
+     Proofs.WireProofs Proofs.NlriProofs Proofs.NlriDecoded Proofs.AttrProofs Proofs.UpdateTotal Proofs.C01Proofs Proofs.C07Proofs Proofs.C06Proofs Proofs.C06Bytes Proofs.C07Msg.
 Import ListNotations.
 Local Open Scope N_scope.
 Local Arguments N.of_nat : simpl never.
@@ -129,4 +129,113 @@ Proof.
   - apply forallb_forall. intros n Hin. rewrite Forall_forall in Fa. now destruct (Fa n Hin).
   - apply forallb_forall. intros n Hin. rewrite Forall_forall in Fw. now destruct (Fw n Hin).
   - apply Forall_app. split; [eapply Forall_impl; [|exact Fa]|eapply Forall_impl; [|exact Fw]]; intros n (_ & A & B); split; auto.
+Qed.
+
+(* ---- the attributes of the rebuilt message, decoded as a whole ---- *)
+Lemma map_Ok_inj {A} (l1 l2 : list A) : map (@Ok A) l1 = map (@Ok A) l2 -> l1 = l2.
+Proof.
+  revert l2. induction l1 as [|x l1 IH]; intros [|y l2] H; try discriminate; [reflexivity|].
+  cbn [map] in H. inversion H; subst. f_equal. now apply IH.
+Qed.
+
+(* under a four-octet session the path attributes of the message a builder emits are: MP_REACH_NLRI (if it announces), MP_UNREACH_NLRI
+   (if it withdraws), then exactly the attributes of its map, in key order, each decoding to the attribute it was composed from *)
+Lemma built_attributes cfg bd m' m out :
+  sc_four cfg = true ->
+  wf_builder bd = true -> into_message cfg bd = Ok (MOk m') -> bd_attrs bd = m ->
+  pamap_compose m = Ok out ->
+  (forall pos, exists ws', attrs_walk (S (length out)) true (mkP out pos) = map Ok ws' /\ Forall2 same_attr (map snd m) ws') ->
+  exists u' mp ws', parse_update cfg m' = Ok u' /\
+    a_path_attributes m' u' = map Ok (mp ++ ws') /\ Forall2 same_attr (map snd m) ws' /\
+    Forall (fun w => wattr_code w = 14 \/ wattr_code w = 15) mp /\
+    length mp = ((match bd_ann bd with Some _ => 1 | None => 0 end) + (match bd_wd bd with Some _ => 1 | None => 0 end))%nat.
+Proof.
+  intros Hfour Hwf Hm Hattrs Hout Hwalk.
+  destruct (into_message_ok _ _ _ Hm) as (_ & n & Hc & Hn & Hf & _).
+  assert (Hn16 : N.of_nat n <= 65535).
+  { assert (N.of_nat bc_max_pdu <= 65535) by (vm_compute; discriminate). lia. }
+  destruct (finish_ref bd n Hwf Hc Hn16) as (c & m0 & Hco & Hf' & Href & Hlen & Hspecs & Hcw & Hca).
+  rewrite Hf in Hf'. apply Ok_inj in Hf'. subst m0.
+  assert (Hwfc : wf_content cfg c = true) by (unfold wf_content; rewrite Hcw, Hca, Hspecs; reflexivity).
+  assert (HW : encode_all (c_wd c) = Ok []) by (rewrite Hcw; reflexivity).
+  assert (HN : encode_all (c_ann c) = Ok []) by (rewrite Hca; reflexivity).
+  pose proof (ref_encode_is c [] [] HW HN) as Href'. rewrite Href in Href'. apply Ok_inj in Href'. rename Href' into Hm_eq.
+  assert (Hsize : N.of_nat (23 + length (@nil N) + length (flat_map enc_attr (c_attrs c)) + length (@nil N)) <= 65535).
+  { rewrite Hm_eq in Hlen. rewrite !app_length, !be_length in Hlen. cbn [length] in Hlen.
+    assert (Hml : length marker = 16%nat) by reflexivity. rewrite Hml in Hlen. cbn [length]. lia. }
+  pose proof (c01_parse_proof cfg c [] [] Hwfc HW HN Hsize) as P. rewrite <- Hm_eq in P.
+  pose proof (c01_attrs_proof cfg c [] [] Hwfc Hsize) as PA. rewrite <- Hm_eq in PA. rewrite Hfour in PA.
+  (* the content: MP attributes, then the specs of the map *)
+  unfold wf_builder in Hwf. rewrite !andb_true_iff in Hwf. destruct Hwf as (((Ha & Hw) & Hmap) & Hnh).
+  destruct (specs_of_spec _ Hmap) as (specs & S0 & S1 & _ & S3 & S4).
+  unfold content_of in Hco. rewrite S0 in Hco.
+  assert (Hc_attrs : exists ra ua, c_attrs c = ra ++ ua ++ specs /\
+            Forall (fun s => as_code s = 14 \/ as_code s = 15) (ra ++ ua) /\
+            length (ra ++ ua) = ((match bd_ann bd with Some _ => 1 | None => 0 end) + (match bd_wd bd with Some _ => 1 | None => 0 end))%nat).
+  { destruct (bd_ann bd) as [r|]; [destruct (encode_all (r_ann r)) as [ea| |]; cbn [bind] in Hco; try discriminate|cbn [bind] in Hco];
+      (destruct (bd_wd bd) as [w|]; [destruct (encode_all w) as [ew| |]; cbn [bind] in Hco; try discriminate|cbn [bind] in Hco]);
+      apply Ok_inj in Hco; subst c; cbn [c_attrs]; do 2 eexists; (split; [reflexivity|]); split;
+      try (repeat constructor; cbn [as_code]; auto); reflexivity. }
+  destruct Hc_attrs as (ra & ua & Ec & Hmp & Lmp).
+  (* the map part *)
+  rewrite Hattrs in S1. rewrite Hout in S1. apply Ok_inj in S1.
+  destruct (Hwalk 0%nat) as (ws' & W1 & W2).
+  assert (Ews : ws' = map (expected_wattr true) specs).
+  { rewrite S1 in W1. pose proof (flat_enc_len specs) as Hfl.
+    rewrite (attrs_walk_frames true specs (S (length (flat_map enc_attr specs))) 0%nat S3) in W1 by lia.
+    rewrite <- map_map in W1. symmetry. now apply map_Ok_inj. }
+  exists (expected_upd cfg c [] []), (map (expected_wattr true) (ra ++ ua)), ws'.
+  split; [exact P|]. split; [|split; [exact W2|split]].
+  - rewrite PA, Ec, Ews, app_assoc, !map_app, !map_map. reflexivity.
+  - apply Forall_forall. intros w Hin. apply in_map_iff in Hin as (s & <- & Hs). rewrite Forall_forall in Hmp. specialize (Hmp s Hs).
+    unfold expected_wattr. destruct (attr_rule (as_code s)) as [[[cf vr] lr]|] eqn:Er.
+    + destruct (rule_small _ _ _ _ Er) as (_ & _ & N14 & N15). destruct Hmp; congruence.
+    + cbn [wattr_code]. exact Hmp.
+  - now rewrite map_length.
+Qed.
+
+Lemma seeded_builder_wf cfg b u k ap m bd1 bd2 :
+  parse_update cfg b = Ok u -> wf_bytes b -> N.of_nat (3 * length b) <= 65535 ->
+  a_pamap b u = Ok m ->
+  add_announcements_from_pdu b u ap (mkB k None None m) = Ok bd1 -> add_withdrawals_from_pdu b u ap bd1 = Ok bd2 ->
+  wf_builder bd2 = true /\ bd_attrs bd2 = m.
+Proof.
+  intros Hp Hwf Hsz Hm Ha Hw.
+  destruct (c07_seed_proof cfg b u k Hp Hwf Hsz) as (m0 & M1 & _ & M3). rewrite Hm in M1. apply Ok_inj in M1. subst m0.
+  destruct (readded_ok b u k ap m bd1 bd2 Hwf Ha Hw) as (Fa & Fw).
+  destruct (add_ann_spec _ _ _ _ _ Ha) as (A1 & A2 & A3 & A4). destruct (add_wd_spec _ _ _ _ _ Hw) as (W1 & W2 & W3 & W4).
+  cbn [bd_fam bd_attrs bd_wd bd_ann] in *.
+  assert (Hattrs : bd_attrs bd2 = m) by congruence. split; [|exact Hattrs].
+  assert (Wa : forallb wf_nlri (ann_of bd2) = true).
+  { apply forallb_forall. intros n Hin. rewrite Forall_forall in Fa. now destruct (Fa n Hin). }
+  assert (Ww : forallb wf_nlri (wd_of bd2) = true).
+  { apply forallb_forall. intros n Hin. rewrite Forall_forall in Fw. now destruct (Fw n Hin). }
+  unfold wf_builder. rewrite Wa, Ww, Hattrs, M3. cbn [andb]. rewrite W3.
+  destruct A4 as [->|(l & E & _)]; [reflexivity|]. rewrite E. cbn [r_nh]. apply default_nh_wf.
+Qed.
+
+(* C07 through the builder, complete: the rebuilt message decodes, under the four-octet configuration, to the MP attributes followed
+   by exactly the attributes of the original message's map, each with the same content; and its NLRI are those of the original *)
+Lemma c07_builder_complete_proof cfg b u k m bd1 bd2 m' :
+  sc_four cfg = true ->
+  parse_update cfg b = Ok u -> wf_bytes b -> N.of_nat (3 * length b) <= 65535 ->
+  a_pamap b u = Ok m ->
+  let ap := rx_addpath cfg (fam_code k) in
+  add_announcements_from_pdu b u ap (mkB k None None m) = Ok bd1 -> add_withdrawals_from_pdu b u ap bd1 = Ok bd2 ->
+  into_message cfg bd2 = Ok (MOk m') ->
+  exists u' mp ws', parse_update cfg m' = Ok u' /\
+    a_path_attributes m' u' = map Ok (mp ++ ws') /\ Forall2 same_attr (map snd m) ws' /\
+    Forall (fun w => wattr_code w = 14 \/ wattr_code w = 15) mp /\
+    length mp = ((match bd_ann bd2 with Some _ => 1 | None => 0 end) + (match bd_wd bd2 with Some _ => 1 | None => 0 end))%nat /\
+    a_conv_withdrawals m' u' = Some [] /\ a_conv_announcements m' u' = Some [] /\
+    a_mp_announcements m' u' = Ok (match bd_ann bd2 with Some r => Some (fam_code k, Some (map Ok (r_ann r))) | None => None end) /\
+    a_mp_withdrawals m' u' = Ok (match bd_wd bd2 with Some w => Some (fam_code k, Some (map Ok w)) | None => None end).
+Proof.
+  intros Hfour Hp Hwf Hsz Hm ap Ha Hw Hmsg.
+  destruct (seeded_builder_wf cfg b u k ap m bd1 bd2 Hp Hwf Hsz Hm Ha Hw) as (Hwfb & Hattrs).
+  destruct (c07_pamap_proof cfg b u Hp Hwf Hsz) as (m0 & out & M1 & _ & _ & _ & M5 & M6). rewrite Hm in M1. apply Ok_inj in M1. subst m0.
+  destruct (built_attributes cfg bd2 m' m out Hfour Hwfb Hmsg Hattrs M5 M6) as (u' & mp & ws' & B1 & B2 & B3 & B4 & B5).
+  destruct (c07_builder_full_proof cfg b u k m bd1 bd2 m' Hp Hwf Hsz Hm Ha Hw Hmsg) as (_ & _ & u'' & C1 & _ & _ & C4 & C5 & C6 & C7).
+  rewrite B1 in C1. apply Ok_inj in C1. subst u''.
+  exists u', mp, ws'. repeat split; assumption.
 Qed.
